@@ -203,6 +203,8 @@ class Evidence:
                 self.data["assumptions"].append(t)
 
     def write(self):
+        if os.environ.get("VERIF_NOEVIDENCE"):     # runs against a scratch tree (seeded changes) must not overwrite the evidence
+            return
         d = os.path.join(VERIF, "evidence")
         os.makedirs(d, exist_ok=True)
         c = self.cov
